@@ -1,7 +1,7 @@
 (* C08 driver.  Cases (see harness/h_c08.cpp for the implementation side):
-     itoa <v>                 itoa<int>(v) then fast_atoi<int>(text)       -> "<text> <parsed>" | "UB" (sanitizer report in fast_atoi)
+     itoa <v>                 itoa<int>(v) then fast_atoi<int>(text)       -> "<text> <parsed>"
      utoa <v>                 itoa<unsigned>(v) then fast_atoi<unsigned>   -> "<text> <parsed>"
-     atoi <i|u|s> <term> <hex text>   fast_atoi<T>(text, term)             -> "<value>" | "UB"
+     atoi <i|u|s> <term> <hex text>   fast_atoi<T>(text, term)             -> "<value>"
      dtoa <p> <hex16 bits>    modp_dtoa(v, p) then fast_atof(text)         -> "<text> <hex16>" | "EXP"
      atof <hex text>          fast_atof(text)                              -> "<hex16>"
    Texts are shown with printable characters as they are and everything else as \xHH. *)
@@ -42,9 +42,10 @@ let ity_of s = match s with "i" -> (T_int, "-2147483648", "2147483647")
                           | "s" -> (T_ushort, "0", "65535")
                           | _ -> failwith "ity"
 
-(* outcome of a parse: the value, or "UB" (an undefined int operation: the sanitized build stops
-   with a report inside fast_atoi), or "OOB" *)
-let show_ar (r : atoi_result) : string = match r with AR_ok v -> string_of_z v | AR_overflow -> "UB" | AR_oob -> "OOB"
+(* outcome of a parse: the value, or "OOB" (a non-NUL terminator that does not occur).  The model has no
+   undefined operation any more (1965750): a sanitizer report inside fast_atoi ("UB" on the
+   implementation side) is always a disagreement and always fails the oracle *)
+let show_ar (r : atoi_result) : string = match r with AR_ok v -> string_of_z v | AR_oob -> "OOB"
 let opt_ar (r : atoi_result) : z option = match r with AR_ok v -> Some v | _ -> None
 
 let int_case (rt : z -> (z list * atoi_result) option) (v : z) (impl : string) =
@@ -70,10 +71,7 @@ let () = run_protocol (fun case impl ->
     let ms = show_ar r in
     let om = c08_atoi_ok lo hi text (opt_ar r) in
     let iv = (try Some (z_of_string (if impl = "" || not (String.for_all (fun c -> c = '-' || (c >= '0' && c <= '9')) impl) then failwith "nan" else impl)) with _ -> None) in
-    (* "UB": the parse did not complete (undefined int operation) -- acceptable exactly where the
-       property requires nothing, i.e. when the text is not a canonical decimal of the type *)
-    let oi = (match iv with Some _ -> c08_atoi_ok lo hi text iv
-                          | None -> impl = "UB" && c08_atoi_ok lo hi text None) in
+    let oi = (match iv with Some _ -> c08_atoi_ok lo hi text iv | None -> false) in
     (ms, oi, om)
   | ["dtoa"; p; bits] ->
     let p = z_of_string p and v = read_f64 bits in
